@@ -1,10 +1,20 @@
 ------------------------------- MODULE MFrontRunGen -------------------------------
-(* GEN for C36: every history (sequence of key indices) of at most DEPTH runs over NKEYS keys *)
+(* GEN for C36: every history (sequence of key indices) of at most DEPTH runs over NKEYS keys, and the invocations of
+   mfront on several inputs at once: a family (IOEnv.FAM, one ndjson record [keys |-> <<...>>] per family) is a set of
+   keys with the same interface and options, which one command line can hold.  A history is a sequence of
+   invocations, an invocation a sequence of keys: every ordered pair and triple of distinct keys of a family, alone
+   in a fresh directory and followed by a run of its first key alone. *)
 EXTENDS Integers, Sequences, FiniteSets, TLC, Json, IOUtils, SequencesExt
 NK == atoi(IOEnv.NKEYS)
 N == atoi(IOEnv.DEPTH)
 Hs == UNION {[1..n -> 1..NK] : n \in 1..N}
+Fams == ndJsonDeserialize(IOEnv.FAM)
+KeysOf(f) == {Fams[f].keys[i] : i \in 1..Len(Fams[f].keys)}
+Multi == UNION {{p \in KeysOf(f) \X KeysOf(f) : p[1] # p[2]} \cup
+                {p \in KeysOf(f) \X KeysOf(f) \X KeysOf(f) : p[1] # p[2] /\ p[1] # p[3] /\ p[2] # p[3]} : f \in 1..Len(Fams)}
+Single(h) == [i \in 1..Len(h) |-> <<h[i]>>]
+All == {Single(h) : h \in Hs} \cup {<<m>> : m \in Multi} \cup {<<m, <<m[1]>>>> : m \in Multi}
 Number(S) == LET s == SetToSeq(S) IN [i \in 1..Len(s) |-> [id |-> i, runs |-> s[i]]]
-ASSUME ndJsonSerialize(IOEnv.OUT, Number(Hs))
-ASSUME PrintT(<<"GEN", Cardinality(Hs)>>)
+ASSUME ndJsonSerialize(IOEnv.OUT, Number(All))
+ASSUME PrintT(<<"GEN", Cardinality(Hs), Cardinality(Multi)>>)
 =============================================================================
